@@ -631,6 +631,7 @@ def r_intern(root):
 RECORDS = [   # (file, class, properties): plain records whose constructor stores each parameter under its own name, unchanged
     (MODEL, "ObjCrossRef", ("C07", "C08", "C28", "C34", "C09")), (MODEL, "RefRulePosition", ("C34",)),
     ("textx/exceptions.py", "TextXError", ("C28", "C33", "C23")),
+    ("textx/registration.py", "LanguageDesc", ("C26",)), ("textx/registration.py", "GeneratorDesc", ("C26", "C30")), ("textx/registration.py", "GeneratorParam", ("C30", "C26")),
 ]
 ERR_SUBCLASSES = ("TextXSemanticError", "TextXSyntaxError")
 def r_records(root):
@@ -645,11 +646,22 @@ def r_records(root):
         t = load(root, rel); cds = {c.name: c for c in t.body if isinstance(c, ast.ClassDef)}
         env = {"__classdefs__": cds, "__functions__": {n.name: n for n in t.body if isinstance(n, ast.FunctionDef)}, "__module__": t}
         for c_ in cds: env[c_] = pyeval.ClassRef(c_)
+        cd_ = cds[cname]
+        if not any(isinstance(f_, ast.FunctionDef) and f_.name == "__init__" for f_ in cd_.body) and any((isinstance(d_, ast.Name) and d_.id == "dataclass") or (isinstance(d_, ast.Call) and getattr(d_.func, "id", "") == "dataclass") for d_ in cd_.decorator_list):
+            # a dataclass: the generated constructor stores every field as given, then __post_init__ (if any) runs
+            o_ = pyeval.Inst({".__cls__": cname})
+            for k_, v_ in values.items(): o_["." + k_] = v_
+            c_, f_ = pyeval.find_method(cds, cname, "__post_init__")
+            try:
+                if f_ is not None: pyeval.call_method_of(o_, c_, f_, [], {}, env)
+                return "ret", o_
+            except pyeval.Raised as r_: return "raise", r_.cls
+            except pyeval.Unsupported as u_: raise AnalysisError("%s.__post_init__: outside the evaluated subset: %s" % (cname, u_))
         try: return "ret", pyeval.instantiate(cname, [], dict(values), env)
         except pyeval.Raised as r_: return "raise", r_.cls
         except pyeval.Unsupported as u_: raise AnalysisError("%s.__init__: outside the evaluated subset: %s" % (cname, u_))
     def value_sets(params):
-        yield "distinct objects", {p_: {".kind": "value given for " + p_} for p_ in params}
+        yield "distinct objects", {p_: {".kind": "value given for " + p_, ".__complete__": "all"} for p_ in params}       # plain objects without any attribute or method
         yield "0", {p_: 0 for p_ in params}
         yield "the empty string", {p_: "" for p_ in params}
         yield "None", {p_: None for p_ in params}
@@ -657,8 +669,10 @@ def r_records(root):
         yield "distinct strings", {p_: "text of " + p_ for p_ in params}
     for rel, cname, ps in RECORDS:
         cls = find(load(root, rel), cname); init = next((f for f in cls.body if isinstance(f, ast.FunctionDef) and f.name == "__init__"), None)
-        if init is None: raise AnalysisError("%s.__init__ not found" % cname)
-        params = [a.arg for a in init.args.args[1:] + init.args.kwonlyargs]
+        if init is None and any((isinstance(d_, ast.Name) and d_.id == "dataclass") or (isinstance(d_, ast.Call) and getattr(d_.func, "id", "") == "dataclass") for d_ in cls.decorator_list):
+            params = [st_.target.id for st_ in cls.body if isinstance(st_, ast.AnnAssign) and isinstance(st_.target, ast.Name)]
+        elif init is None: raise AnalysisError("%s.__init__ not found" % cname)
+        else: params = [a.arg for a in init.args.args[1:] + init.args.kwonlyargs]
         if len(params) < 3: raise AnalysisError("%s.__init__: only %d parameters" % (cname, len(params)))
         bad = {}
         for what, vals in value_sets(params):
